@@ -22,6 +22,7 @@ pub fn payload_code(id: &str) -> &'static str {
         "P1" => "right(1);",
         "P2" => "resource(2);",
         "P6" => "operation(null);",
+        "P12" => "right(1); check if right(1);",
         "T1" => "right(3);",
         "T2" => "resource(4);",
         o => panic!("unknown payload {o}"),
@@ -33,7 +34,7 @@ pub fn payload_table() -> HashMap<String, Vec<u8>> {
     let mut m = HashMap::new();
     let root = keys::keypair("scratch-root", "ed");
     let next = keys::keypair("scratch-next", "ed");
-    for id in ["P1", "P2", "P6"] {
+    for id in ["P1", "P2", "P6", "P12"] {
         let b = Biscuit::builder()
             .code(payload_code(id))
             .unwrap()
@@ -42,6 +43,10 @@ pub fn payload_table() -> HashMap<String, Vec<u8>> {
         let proto = schema::Biscuit::decode(&b.to_vec().unwrap()[..]).unwrap();
         m.insert(id.to_string(), proto.authority.block);
     }
+    // Chain.tla `Split`: P12's bytes are P1's bytes followed by the chunk X2 (one more protobuf field)
+    let (p1, p12) = (m["P1"].clone(), m["P12"].clone());
+    assert!(p12.len() > p1.len() && p12[..p1.len()] == p1[..], "payload P12 does not extend payload P1");
+    m.insert("X2".to_string(), p12[p1.len()..].to_vec());
     let base = Biscuit::builder()
         .build_with_key_pair(&root, SymbolTable::new(), &next)
         .unwrap();
@@ -159,6 +164,21 @@ fn admit<KP: biscuit_auth::RootKeyProvider + Clone>(bytes: &[u8], root: KP) -> V
         })
         .unwrap_or_else(|p| Err(format!("PANIC {p}"))),
     ));
+    // the deprecated entry points (Chain.tla modes "legacy" and "mixed")
+    out.push((
+        "legacy",
+        util::catch(|| Biscuit::unsafe_deprecated_deserialize(bytes, root.clone()).map(Some).map_err(|e| format!("{e:?}")))
+            .unwrap_or_else(|p| Err(format!("PANIC {p}"))),
+    ));
+    out.push((
+        "mixed",
+        util::catch(|| {
+            UnverifiedBiscuit::unsafe_deprecated_deserialize(bytes)
+                .map_err(|e| format!("{e:?}"))
+                .and_then(|u| u.verify(root.clone()).map(Some).map_err(|e| format!("{e:?}")))
+        })
+        .unwrap_or_else(|p| Err(format!("PANIC {p}"))),
+    ));
     out
 }
 
@@ -178,6 +198,12 @@ fn replay_forged(c: &mut Concretiser, idx: usize, case: &Value) -> Value {
         admit(&bytes, keys::public_of(&forged["root"]))
     };
     for (path, r) in admitted {
+        // the spec's verdict for the entry point's mode (exports without modes: the standard verdict)
+        let expect = match path {
+            "legacy" => case["accept_legacy"].as_bool().unwrap_or(expect),
+            "mixed" => case["accept_mixed"].as_bool().unwrap_or(expect),
+            _ => expect,
+        };
         match r {
             Ok(b) => {
                 if !expect {
